@@ -81,7 +81,7 @@ if [ ! -x "$OUT" ]; then
   case "$VARIANT" in
     prod) ;;
     hook) FLAGS="$(strip_O "$FLAGS") -O2 -DTINYJAMBU_VERIF";;
-    ndebug) FLAGS="$(strip_O "$FLAGS") -O2 -DNDEBUG";;   # what most other build systems' release configurations define
+    ndebug) FLAGS="$(strip_O "$FLAGS") -O2 -DNDEBUG -funsigned-char";;   # somebody else's build: release configuration of most build systems (NDEBUG), plain char unsigned as on ARM/AArch64/PowerPC Linux
     san)  CC=clang; FLAGS="$(strip_O "$FLAGS") -O1 -g -fno-omit-frame-pointer -fsanitize=address -fsanitize-recover=address -mllvm -asan-opt-same-temp=0 -mllvm -asan-opt=0 -DTINYJAMBU_VERIF";;
     trng-getrandom)  TRNG_FLAVOR=getrandom;  TRNG_MODE=macros;;
     trng-getentropy) TRNG_FLAVOR=getentropy; TRNG_MODE=macros;;
